@@ -6,16 +6,16 @@ AP = "azure_proxy_agent::"
 
 def base_name(c):
     """callee path without trailing generic args"""
-    if c is None:
-        return ""
-    if c.endswith(">") and "::<" in c:
-        c = c[: c.rfind("::<")]
-    return c
+    return mir.norm(c)
 
 
 def ends(c, *names):
     b = base_name(c)
-    return any(b == n or b.endswith("::" + n) for n in names)
+    for n in names:
+        n = mir.norm(n)
+        if b == n or b.endswith("::" + n):
+            return True
+    return False
 
 
 def promoted_variant(fn, n):
@@ -254,3 +254,113 @@ def immediate_await(B, call_block):
     """poll block of the await that consumes the future created at call_block, or None"""
     r = B.await_of(call_block)
     return r[0] if r else None
+
+
+# ----------------------------------------------------------------------------------------
+# format_args! reconstruction (this nightly: one byte template + [fmt::rt::Argument; N])
+
+def decode_template(bs):
+    """-> list of pieces: ('lit', str) | ('arg', index, has_options)"""
+    out = []
+    i = 0
+    nxt = 0
+    while i < len(bs):
+        n = bs[i]
+        i += 1
+        if n == 0:
+            break
+        if n < 0x80:
+            out.append(("lit", bytes(bs[i:i + n]).decode("utf-8", "replace")))
+            i += n
+        elif n == 0x80:
+            ln = bs[i] | (bs[i + 1] << 8)
+            i += 2
+            out.append(("lit", bytes(bs[i:i + ln]).decode("utf-8", "replace")))
+            i += ln
+        else:
+            idx = nxt
+            if n & 1:
+                i += 4
+            if n & 2:
+                i += 2
+            if n & 4:
+                i += 2
+            if n & 8:
+                idx = bs[i] | (bs[i + 1] << 8)
+                i += 2
+            out.append(("arg", idx, n != 0xC0))
+            nxt = idx + 1
+    return out
+
+
+def _follow_single(B, o, through=("use", "ref", "cast")):
+    """follow an operand through single-definition copies/refs to the defining (kind, payload, block)"""
+    seen = 0
+    while o["k"] in ("copy", "move") and seen < 20:
+        seen += 1
+        l = o["p"]["l"]
+        d = B.single_def(l)
+        if d is None:
+            return None
+        bi, si, kind, payload = d
+        if kind == "assign" and payload["rv"]["k"] in through and not payload["lhs"]["p"]:
+            rv = payload["rv"]
+            if rv["k"] in ("use", "cast"):
+                o = rv["o"]
+            else:
+                o = {"k": "copy", "p": rv["p"]}
+                if rv["p"]["p"] and any(e != "*" for e in rv["p"]["p"]):
+                    return ("place", rv["p"], bi)
+            continue
+        return (kind, payload, bi)
+    if o["k"] == "const":
+        return ("const", o, None)
+    return None
+
+
+def format_of(B, o):
+    """If operand `o` is a String built by format!/format_args!, return
+         {'pieces': [...], 'args': [{'kind': 'display'|'debug'|.., 'origins': set, 'ty': str}], 'block': bi}
+       else None."""
+    cur = o
+    for _ in range(10):
+        d = _follow_single(B, cur)
+        if d is None or d[0] != "call":
+            return None
+        t = d[1]
+        w, r = mir.callee_of(t)
+        if w is None:
+            return None
+        if ends(w, "must_use", "format", "deref", "as_str", "as_ref", "borrow", "clone", "to_string", "to_owned") \
+                or w in ("std::fmt::format", "alloc::fmt::format"):
+            cur = t["args"][0]
+            continue
+        if base_name(w).endswith("fmt::Arguments::<'a>::new") or ends(w, "Arguments::new", "Arguments::<'a>::new"):
+            tmpl = _follow_single(B, t["args"][0])
+            pieces = None
+            if tmpl and tmpl[0] == "const" and isinstance(tmpl[1].get("val"), dict):
+                pieces = decode_template(tmpl[1]["val"]["bytes"])
+            arr = _follow_single(B, t["args"][1])
+            args = []
+            if arr and arr[0] == "assign" and arr[1]["rv"]["k"] == "agg" and arr[1]["rv"]["ak"] == "array":
+                for el in arr[1]["rv"]["ops"]:
+                    a = _follow_single(B, el)
+                    if a and a[0] == "call":
+                        aw, ar = mir.callee_of(a[1])
+                        kind = base_name(aw).rsplit("::new_", 1)[-1] if "::new_" in (aw or "") else "?"
+                        tys = [g.get("ty") for g in a[1]["f"].get("fnargs", []) if "ty" in g]
+                        args.append({"kind": kind, "origins": B.origins(a[1]["args"][0]), "ty": tys[0] if tys else None,
+                                     "operand": a[1]["args"][0]})
+                    else:
+                        args.append({"kind": "?", "origins": B.origins(el), "ty": None, "operand": el})
+            return {"pieces": pieces, "args": args, "block": d[2]}
+        if ends(w, "Arguments::from_str", "Arguments::<'a>::from_str", "Arguments::new_const"):
+            return {"pieces": None, "args": [], "block": d[2]}
+        return None
+    return None
+
+
+def template_text(fmt):
+    if not fmt or fmt["pieces"] is None:
+        return None
+    return "".join(p[1] if p[0] == "lit" else "{}" for p in fmt["pieces"])
